@@ -10,6 +10,11 @@ spec->code, harness area "num"):
                    polynomials with dyadic steps (bitwise comparison), exactness classes, consistency
   DualAlgebra.tla  dual / hyperdual / quaternion / dual quaternion / dual complex algebras from basis
                    multiplication tables, ring laws, inverses, integer powers
+  DualFun.tla      elementary functions of dual / hyperdual numbers: chain rule with rational f', f'' tables
+                   (pinned by differential identities), first-order systems for Exp/Sin/Cos/Sinh/Cosh/Tan/Tanh
+                   with f'' derived by polynomial differentiation, zero-real-part arguments, identities
+                   Exp(Log a) = a, Pow(a,2) = a a, Sqrt(a)^2 = a, Log(ab) = Log a + Log b; dualquat / dualcmplx
+                   with scalar or complex leading part
   Interp.tla       piecewise constant / linear / Hermite / Akima / Fritsch-Butland / natural / clamped /
                    not-a-knot interpolants on <= 6 integer knots by rational elimination
 """
@@ -71,12 +76,21 @@ def interp_stages(ctx, thorough, seed):
     return [("interpolation " + n, "num/Interp.tla", "num/Interp_gen.cfg", dict(base, METHODS=S(*m))) for n, m in groups]
 
 
+def dfun_stages(ctx, thorough, seed):
+    fns = S("Inv", "Log", "Sqrt", "SqrtSq", "PowInt", "PowHalf", "Atan", "Atanh", "Asin", "Acos", "Asinh", "Acosh",
+            "Exp", "Sin", "Cos", "Sinh", "Cosh", "Tan", "Tanh", "ExpLog", "PowNum2", "LogMul")
+    return [("elementary functions dual+hyperdual (derivative parts, identities)", "num/DualFun.tla", "num/DualFun_gen.cfg",
+             dict(TYPES=S("dual", "hyper"), FUNS=fns, NVAR=4, SEED=seed)),
+            ("elementary functions dualquat+dualcmplx (scalar / complex leading part)", "num/DualFun.tla", "num/DualFun_gen.cfg",
+             dict(TYPES=S("dquat", "dcmplx"), FUNS=S("Log", "Sqrt", "PowInt", "Exp"), NVAR=4, SEED=seed))]
+
+
 def run(ctx):
     os.makedirs(os.path.join(SPECS, "lib"), exist_ok=True)
     thorough = ctx.tier == "thorough"
     seed = ctx.seed % 1000
     hb = ctx.build("")
-    stages = quad_stages(ctx, thorough, seed) + fd_stages(ctx, thorough, seed) + alg_stages(ctx, thorough, seed) + interp_stages(ctx, thorough, seed)
+    stages = quad_stages(ctx, thorough, seed) + fd_stages(ctx, thorough, seed) + alg_stages(ctx, thorough, seed) + interp_stages(ctx, thorough, seed) + dfun_stages(ctx, thorough, seed)
     stages.sort(key=lambda st: ("Hessian" not in st[0], "dquat" not in st[0], "simpson" not in st[0]))   # longest first
 
     def one(st):
